@@ -151,6 +151,8 @@ static int parseReset(MPT_INTERFACE(iterator) *ptr)
 	/* value after separator config */
 	if ((it->val = strchr((void *) (it + 1), 0))) {
 		++it->val;
+		/* end is cleared when iteration finished */
+		it->end = it->val + strlen(it->val);
 	}
 	return 1;
 }
